@@ -20,6 +20,7 @@ mod c11;
 mod worker;
 mod c12;
 mod c13;
+mod c14;
 mod c15;
 mod c16;
 mod c17;
@@ -75,6 +76,7 @@ fn run(id: &str, tier: Tier) -> i32 {
         "C11" => c11::run(tier),
         "C12" => c12::run(tier),
         "C13" => c13::run(tier),
+        "C14" => c14::run(tier),
         "C15" => c15::run(tier),
         "C16" => c16::run(tier),
         "C17" => c17::run(tier),
@@ -99,6 +101,7 @@ fn replay(file: &str) -> i32 {
         "C11" => c11::replay(&v["case"]),
         "C12" => c12::replay(&v["case"]),
         "C13" => c13::replay(&v["case"]),
+        "C14" => c14::replay(&v["case"]),
         "C15" => c15::replay(&v["case"]),
         "C16" => c16::replay(&v["case"]),
         "C17" => c17::replay(&v["case"]),
